@@ -93,7 +93,7 @@ def programs(w) -> Any:
                                 continue
                             prev = []  # type: List[str]
                             names = []
-                            base = ids.new("m")
+                            base = ids.new("m") if rng.random() < 0.9 else "_" + ids.new("m")
                             for level, npre_l in enumerate(shape):
                                 cname = ids.new("K")
                                 members = []
